@@ -275,6 +275,35 @@ def helper_summaries(ctx, rid, names, mode_for_plain, doc=None):
             ctx.ob(rid, ok3, site, "%s: the lock is taken with the %s constructor only (never blocks beyond the given time)"
                    % (nm, "try_to_lock" if want == "try" else "duration/time-point"),
                    "" if ok3 else "acquisition kinds: %s" % kinds, fn=f.label, inst=f.qname)
+            if want == "timed":
+                _timed_argument_unchanged(ctx, rid, f)
+
+
+def _timed_argument_unchanged(ctx, rid, f):
+    """a timed acquisition waits for exactly the time its caller asked for: the duration / time point reaches the lock
+    constructor, the mutex's try_lock_for/until or the try_lock_*_for/until helper as the function's own parameter,
+    not as something computed from it (another clock, another unit, a clamp)"""
+    if not f.params:
+        return
+    last = "p:" + f.params[-1]["name"]
+    sites = []
+    for st in f.stmts.values():
+        c = st.get("callee") or {}
+        if st["k"] in CTORS and lock_class(st.get("t", "")) and len(st.get("args", [])) == 2 and \
+                "std::chrono::" in strip_cvref((c.get("params") or ["", ""])[1]):
+            sites.append((st, f.s(st["args"][1])))
+        elif st["k"] == "CXXMemberCallExpr" and c.get("name") in ("try_lock_for", "try_lock_until", "try_lock_shared_for",
+                                                                   "try_lock_shared_until", "wait_for", "wait_until") and st.get("args") \
+                and c.get("fq", "").startswith("std::"):
+            sites.append((st, f.s(st["args"][0 if not c.get("name", "").startswith("wait") else min(1, len(st["args"]) - 1)])))
+        elif st["k"] == "CallExpr" and re.match(r"^gmlc::libguarded::try_lock_(shared_)?handle_(for|until)$", callee_fq(st)) and \
+                len(st["args"]) == 3:
+            sites.append((st, f.s(st["args"][2])))
+    for st, a in sites:
+        ok = path(f, a) == last
+        ctx.ob(rid, ok, f.loc(st), "%s hands its own time argument to the timed acquisition" % f.name,
+               "" if ok else "the acquisition waits for %s, not for the caller's %s: the wait can end long before or long after "
+               "the time that was asked for" % (path(f, a) or "a computed value", last[2:]), fn=f.label, inst=f.qname)
 
 
 def private_payload(ctx, rid, classes):
@@ -789,6 +818,8 @@ def acquisition_summaries(ctx, rid, classes, opt_classes=()):
                 ctx.unknown("%s: cannot summarise the handle returned by %s::%s at %s" % (rid, cls.split("::")[-1], f.name, site))
                 continue
             is_try = f.name.startswith("try_")
+            if f.name.endswith(("_for", "_until")):
+                _timed_argument_unchanged(ctx, rid, f)
             en = [a for a in s if not (a.get("cond") and a["cond"][0] == "this.enabled" and a["cond"][1] is False)]
             dis = [a for a in s if a.get("cond") and a["cond"][0] == "this.enabled" and a["cond"][1] is False]
             if cls in opt_classes:
@@ -1001,7 +1032,7 @@ def rcu_writer_guard(ctx, rid, floor=20, loads=True):
         la = eng.locks(f)
         mutator = any(op["op"] in ("store", "rmw", "cas") and re.search(r"::node \*>$", op["objtype"]) for op in atomic_ops(f))
         for op in atomic_ops(f):
-            if op["op"] not in ("store", "rmw", "cas") and not (mutator and loads):
+            if op["op"] not in ("store", "rmw", "cas") and not (mutator and (loads is True or (loads and f.name in loads))):
                 continue        # readers (begin, iterators) follow the links without the mutex
             if not re.search(r"::node \*>$", op["objtype"]):
                 continue
@@ -1320,6 +1351,87 @@ def no_move_from_callers_object(ctx, rid, functions, floor=1):
         ctx.ob(rid, not bad, f.loc(bad[0][0]) if bad else f.where, "%s moves from nothing it received as an lvalue reference" % f.name,
                "" if not bad else "std::move(%s): in this instantiation the argument is the caller's own object (lvalue); it is left "
                "moved-from although the caller keeps using it" % bad[0][1], fn=f.label, inst=f.qname)
+
+
+def is_user_call(f, st):
+    """call of a functor parameter / std::function object / user predicate"""
+    if st["k"] == "CXXOperatorCallExpr" and st.get("op") == "()" and st["args"]:
+        a0 = f.s(st["args"][0])
+        p = path(f, a0)
+        t = (a0 or {}).get("t", "")
+        if p and (p.startswith("p:") or "std::function<" in t):
+            return True
+        if "std::function<" in t:
+            return True
+    if st["k"] == "CXXMemberCallExpr" and (st.get("callee") or {}).get("name") == "operator()":
+        o = f.s(st["obj"])
+        if o is not None and "std::function<" in o.get("t", ""):
+            return True
+    return False
+
+
+def noexcept_user(ctx, rid, files, floor=0):
+    """a library function that is noexcept for the instantiated payload must not let an exception of user code reach
+    its boundary (std::terminate instead of 'propagates as documented')"""
+    ctx.rule(rid, "functions that are noexcept in this instantiation contain no potentially-throwing call outside a "
+             "non-rethrowing catch-all (a throwing payload operation would terminate the process)", floor=floor)
+    for f in ctx.fb.functions():
+        if not in_files(f, files) or not f.noexcept or f.defaulted or f.kind == "dtor":
+            continue
+        bad = None
+        protected = set()
+        for t in [s_ for s_ in f.stmts.values() if s_["k"] == "CXXTryStmt"]:
+            hs = [f.s(h) for h in t["handlers"]]
+            if any(h.get("all") for h in hs) and not any(d["k"] == "CXXThrowExpr" for h in hs for d in f.descendants(h)):
+                protected |= {d["id"] for d in f.descendants(f.s(t["try"]))}
+        for st in f.stmts.values():
+            if st["id"] in protected:
+                continue
+            c = st.get("callee") if st["k"] in CALLS or st["k"] in CTORS else None
+            if not c:
+                continue
+            if c.get("noexcept") or c.get("fq") in ("std::move", "std::forward"):
+                continue
+            if st["k"] in CTORS and (c.get("defaulted") or st.get("t", "").startswith("std::chrono::") or not st["args"]):
+                continue
+            # only user code counts: functor calls, and operations on the payload type of the instantiation
+            # (a member of the payload type itself, or a function that is handed a payload object - not merely a member
+            # of a container whose element type mentions it)
+            if not (is_user_call(f, st) or c.get("qname", "").startswith("vdrv::") or
+                    any("vdrv::" in p_ for p_ in c.get("params", []))):
+                continue
+            bad = "%s at %s may throw" % (c.get("qname", "?")[:80], f.loc(st))
+            break
+        ctx.ob(rid, bad is None, f.where, "noexcept %s cannot be left by an exception" % f.name, bad or "", fn=f.label, inst=f.qname)
+
+
+def value_categories(ctx, rid, files):
+    """A8 over every function of the files a property is anchored in: no variable is used again after it was passed on
+    with std::move / an rvalue std::forward, and nothing is moved out of an object the function only refers to (an
+    lvalue-reference parameter in this instantiation, a local reference into storage owned elsewhere)"""
+    from .typestate import moves_from_lvalue_ref, uses_after_move
+    ctx.rule(rid, "no use after std::move / rvalue std::forward; no std::move out of an object held by lvalue reference", floor=10)
+    fxb, _ = ctx.fx
+    got = {}
+    for f in fxb.functions():
+        if f.qname.startswith(("fx::fwd_twice::", "fx::fwd_sink::")):
+            got[f.name] = (bool(uses_after_move(f)), bool(moves_from_lvalue_ref(f)))
+    want = {"twice": (True, False), "once": (False, False), "steal": (False, True), "copy_then_move": (False, False),
+            "take_moved": (False, True), "take_forwarded": (False, False)}
+    for k, v in want.items():
+        if got.get(k) != v:
+            ctx.broken("controls fx::fwd_twice / fx::fwd_sink: %s expected %s, got %s" % (k, v, got.get(k)))
+    for f in ctx.fb.functions():
+        if not in_files(f, files):
+            continue
+        uam = uses_after_move(f)
+        ctx.ob(rid, not uam, f.loc(uam[0][0]) if uam else f.where, "%s uses nothing after having moved / forwarded it away" % f.name,
+               "" if not uam else "%s is passed on as an rvalue here and used again at %s: a callable or value that gives its "
+               "state away on the first use is empty on the second" % (uam[0][1], f.loc(uam[0][2])), fn=f.label, inst=f.qname)
+        bad = moves_from_lvalue_ref(f)
+        ctx.ob(rid, not bad, f.loc(bad[0][0]) if bad else f.where, "%s moves from nothing it holds by lvalue reference" % f.name,
+               "" if not bad else "std::move(%s): the object belongs to the caller or to a container (it is an lvalue reference "
+               "here); it is left moved-from although its owner keeps using it" % bad[0][1], fn=f.label, inst=f.qname)
 
 
 # ------------------------------------------------ clang-tidy cross-reference (thorough tier)
